@@ -131,6 +131,32 @@ def run (kind : Nat → Kind) : State → List Label → Option State
     | some s' => run kind s' ls
     | none => none
 
+/-! ### Ephemeral sessions (stateless streamable HTTP server)
+
+On a stateless `StreamableHTTPHandler` every POST gets a session of its own (`serveStateless`), so there
+is no queue and no dispatcher shared between two messages.  What orders messages there is the HTTP
+exchange itself: the response to a POST — the 202 of a notification included — is produced only
+after the temporary session has handled what the POST carried (`serveEphemeral`: serve, end the
+session's input, wait for it, close; F14 repaired), and a call returns with its response anyway.
+Hence in this model `ret i` requires the handler of `i` to be done, whatever kind `i` has. -/
+
+def stepE (s : State) : Label → Option State
+  | .send i => if s.phase i = .unsent then some (s.setPhase i .sending) else none
+  | .start i => if s.phase i = .sending then some (s.setPhase i .running) else none
+  | .cb i => if s.phase i = .running then some s else none
+  | .fin i => if s.phase i = .running then some (s.setPhase i .done) else none
+  | .ret i =>
+    if i ∈ s.returned then none
+    else if s.phase i = .done then some { s with returned := i :: s.returned } else none
+  | _ => none
+
+def runE : State → List Label → Option State
+  | s, [] => some s
+  | s, l :: ls =>
+    match stepE s l with
+    | some s' => runE s' ls
+    | none => none
+
 /-! ### What an observer of the two sessions sees, and the property as a predicate on it -/
 
 /-- Observable events: API call begins / returns, user handler starts / ends. -/
